@@ -4,6 +4,7 @@ package c01
 import (
 	"context"
 	"fmt"
+	goerrors "github.com/ajitpratap0/GoSQLX/pkg/errors"
 	"os"
 	"path/filepath"
 	"runtime/debug"
@@ -296,7 +297,7 @@ func Check() *common.Check {
 		Rule: "(1) all strings of <=3 (quick) / <=4 (thorough) fragments over lexgen's 37-fragment lexical alphabet and over a 14-fragment hostile alphabet (invalid UTF-8, NUL, letters whose upper case has another byte length, quote openers, injection snippets); " +
 			"(2) all lexeme sequences of length <=3 (quick) / <=4 (thorough, reduced alphabet) over a 60-lexeme keyword/operator/literal alphabet; (3) all parser-token sequences of length <=2 over every token type the library names, and <=3 over 50 core types, " +
 			"each with and without a trailing EOF token (length-3 slices without EOF: thorough only) and with empty literals, x position mappings shorter / equal / longer than the token slice; (4) every token prefix of every distinct sqlgen statement, every byte prefix (step 1 quick up to 600 bytes) of every corpus file, " +
-			"every single-token deletion / duplication / replacement by 12 hostile tokens of a spread of statements. Each input goes through every public entry point (about 60 for text, incl. every dialect and strict mode; on success also serialisers, extractors, scanner, traversal). " +
+			"every single-token deletion / duplication / replacement by 12 hostile tokens of a spread of statements; (5) a length ladder (every lexeme length 0..160/600 in 12 error templates and as token literals) and 12 saturation histories of 2200 distinct unexpected-token texts each (with / without a keyword suggestion, mixed in both orders) through the process-wide suggestion cache. Each input goes through every public entry point (about 60 for text, incl. every dialect and strict mode; on success also serialisers, extractors, scanner, traversal). " +
 			"Oracle: the call returns; no panic reaches the caller; the worker process does not die and does not go silent. distinct = distinct input; non-trivial = the input is accepted by the default parser, so the tree consumers run too",
 		Assume: []string{"a hang is 'no progress of a worker for 120 s' (cases take microseconds)", "inputs near the 10 MiB limit are exercised by C02 / C20 families, not here"},
 		Enumerate: func(e *common.Enum) {
@@ -474,6 +475,67 @@ func Check() *common.Check {
 				}
 				return nil
 			})
+			// saturation histories: the library keeps one process-wide structure keyed by input text (the keyword-suggestion
+			// cache behind parser error hints, capacity 1000).  Whatever the worker did before, 2200 further distinct
+			// unexpected-token texts drive it through filling and eviction at least twice - with texts that get a suggestion,
+			// texts that get none, and both mixes in both orders.  One history is one case: a call that never returns is
+			// attributed to it.
+			kwNear := []string{"SELECT", "INSERT", "UPDATE", "DELETE", "CREATE", "HAVING", "VALUES", "OFFSET", "DISTINCT", "BETWEEN", "WHERE1", "TABLES", "GROUPS", "ORDERS", "UNIONS", "LIMITS", "INDEXS", "VIEWER", "JOINED", "FROMAGE"}
+			near := func(i int) string { return fmt.Sprintf("%s%02d", kwNear[i%len(kwNear)], i/len(kwNear)) }
+			far := func(i int) string { return fmt.Sprintf("zq%05dxwvj", i) }
+			const satN = 2200
+			for _, h := range []struct {
+				name string
+				text func(i int) string
+			}{
+				{"all-near", near}, {"all-far", far},
+				{"alternate", func(i int) string {
+					if i%2 == 0 {
+						return near(i / 2)
+					}
+					return far(i / 2)
+				}},
+				{"near-then-far", func(i int) string {
+					if i < satN/2 {
+						return near(i)
+					}
+					return far(i)
+				}},
+				{"far-then-near", func(i int) string {
+					if i < satN/2 {
+						return far(i)
+					}
+					return near(i)
+				}},
+				{"two-near-one-far", func(i int) string {
+					if i%3 == 2 {
+						return far(i)
+					}
+					return near(i)
+				}},
+			} {
+				h := h
+				for _, tag := range []string{"a", "b"} { // twice, so that every shard's process is likely to see one
+					tag := tag
+					e.Do("saturate|"+h.name+"|"+tag, func(c *common.Ctx) {
+						c.Input("saturate|" + h.name)
+						sug := 0
+						for i := 0; i < satN; i++ {
+							t := h.text(i) + tag
+							if goerrors.SuggestKeyword(t) != "" {
+								sug++
+							}
+							_ = gosqlx.Validate("SELECT * " + t + " t0")
+							_ = gosqlx.Validate("SELECT '''" + t + "'''")
+							_, _ = gosqlx.ParseWithRecovery(t + " 1 ; SELECT 1")
+						}
+						c.Count("saturation_calls", 4*satN)
+						c.Count("saturation_texts_with_suggestion", int64(sug))
+						c.Outcome("history-returned")
+						c.NonTrivial()
+					})
+				}
+			}
 			sort.Strings(files)
 			for _, p := range files {
 				b, err := os.ReadFile(p)
